@@ -278,6 +278,33 @@ func (m *ibtpModel) afterBlock(h uint64, txs []*pb.BxhTransaction, metas []*txMe
 			}
 		}
 	}
+	// the delivery set lists nothing but IBTPs this very block accepted ("in the block that accepted it and in no other")
+	if ref.Meta != nil {
+		var dests []string
+		for c := range ref.Meta.Counter {
+			dests = append(dests, c)
+		}
+		sort.Strings(dests)
+		for _, c := range dests {
+			seen := map[uint64]bool{}
+			for _, v := range ref.Meta.Counter[c].Slice {
+				i := int(v.Index)
+				switch {
+				case i >= len(txs) || i >= len(ref.Receipts):
+					s.vio("C02", "delivery", "entry-without-transaction", "block %d: the delivery set of chain %s lists transaction index %d, the block has %d transactions: %s", h, c, i, len(txs), metaString(ref.Meta))
+				case ref.Receipts[i].Status != pb.Receipt_SUCCESS:
+					// reported above for one-to-one IBTPs (rejected-ibtp-delivered)
+				case txs[i].IBTP == nil && metas[i].kind != "entry":
+					s.vio("C02", "delivery", "entry-not-an-ibtp", "block %d: the delivery set of chain %s lists transaction %d (%s), which carries no IBTP", h, c, i, metas[i].kind)
+				case txs[i].IBTP != nil && chainOf(txs[i].IBTP.From) != c && chainOf(txs[i].IBTP.To) != c:
+					s.vio("C02", "delivery", "entry-for-uninvolved-chain", "block %d: transaction %d (%s -> %s) is listed for chain %s", h, i, txs[i].IBTP.From, txs[i].IBTP.To, c)
+				case seen[v.Index]:
+					s.vio("C02", "delivery", "entry-twice", "block %d: transaction %d is listed twice for chain %s", h, i, c)
+				}
+				seen[v.Index] = true
+			}
+		}
+	}
 	// expiry: requests still BEGIN at their timeout height move to BEGIN_ROLLBACK in exactly this block
 	expect := map[string][]string{}
 	for _, id := range m.order {
